@@ -65,6 +65,9 @@ LOSSLESS_WRAPPERS = [
     r"^constants::_::<impl constants::\w+>::from_bits_retain\((?P<x>.*)\)$",
     r"^std::convert::(?:TryFrom::try_from|TryInto::try_into)\((?P<x>.*)\)<Ok>\.0$",
     r"^std::option::Option::<T>::map\((?P<x>.*), constants::_::<impl constants::\w+>::from_bits_retain\)$",
+    r"^phi\(std::option::Option::None\{\} \| std::option::Option::Some\{(?P<x>.*)\}\)$",
+    r"^phi\(std::option::Option::Some\{(?P<x>.*)\} \| std::option::Option::None\{\}\)$",
+    r"^std::result::Result::<T, E>::ok\((?P<x>.*)\)$",
 ]
 
 
@@ -355,25 +358,42 @@ def run(f, fixture, rep, cfg, tier):
     gs = [(g[0], g[2]) for g in getters_in(gd)]
     rep.check(gs == [("string_array", "names_tag"), ("u32_array", "flags_tag"), ("string_array", "versions_tag")], "R5", "get_dependencies|getters",
               "names: string array, flags: u32 array, versions: string array", "get_dependencies reads %s" % gs, gd.span)
-    tgd = TermBuilder(gd)
-    mz = [c for c in gd.calls() if c.decl.endswith("multizip")]
-    zt = render(tgd.term(mz[0].args[0])) if mz else ""
-    okz = bool(re.match(r"^tuple\{.*names_tag\)<Ok>\.0, .*flags_tag\)<Ok>\.0, .*versions_tag\)<Ok>\.0\}$", zt))
-    rep.check(okz, "R5", "get_dependencies|zip-order", "zipped as (names, flags, versions)", "multizip input is %s" % zt[:200], gd.span)
-    dep = None
-    for cb in f.closures_of(gd):
-        ag = agg_fields(cb, "types::Dependency")
-        if ag:
-            dep = ag[0]
-    rep.check(dep is not None and re.fullmatch(r"_\d+\.0", dep.get("name", "")) and re.search(r"from_bits_retain\(_\d+\.1\)$", dep.get("flags", "")) and re.fullmatch(r"_\d+\.2", dep.get("version", "")),
-              "R5", "get_dependencies|fields", "Dependency{name <- .0, flags <- bits(.1), version <- .2}", "Dependency is assembled as %s" % dep, gd.span)
+    # fields of the assembled record, as "element of which getter's array" - independent of how the arrays are zipped
+    from idioms import normalize
+
+    def record_fields(fn_body, adt_suffix):
+        out = None
+        work = [fn_body]
+        seen = set()
+        while work:
+            cb = work.pop()
+            if cb.path in seen:
+                continue
+            seen.add(cb.path)
+            work += f.closures_of(cb)
+            tbc = TermBuilder(cb, closure_env=True)
+            for bb in sorted(cb.reachable()):
+                for st in cb.stmts(bb):
+                    if st["k"] == "assign" and st["rv"]["r"] == "agg" and st["rv"].get("ak") == "adt" and st["rv"].get("adt", "").endswith(adt_suffix):
+                        out = {n: render(normalize(f, tbc.term(o))) for n, o in zip(st["rv"]["fields"], st["rv"]["ops"])}
+        return out
+
+    def elem_of(r):
+        """(getter type, receiver, tag) when r is `ELEM(<getter>(self.X, TAG)<Ok>.0)`."""
+        m = re.fullmatch(r"ELEM\(rpm::headers::header::Header::<T>::get_entry_data_as_(\w+)\(self\.(header|signature), (?:constants::Index(?:Signature)?Tag::)?(\w+)(?:\{\})?\)<Ok>\.0\)", r)
+        return m.groups() if m else None
+    dep = record_fields(gd, "types::Dependency") or {}
+    okp, flags_inner = peel_lossless(dep.get("flags", ""), r"ELEM\(.*\)")
+    rep.check(elem_of(dep.get("name", "")) == ("string_array", "header", "names_tag") and okp and elem_of(flags_inner) == ("u32_array", "header", "flags_tag")
+              and elem_of(dep.get("version", "")) == ("string_array", "header", "versions_tag"),
+              "R5", "get_dependencies|fields", "Dependency{name <- names[i], flags <- bits(flags[i]), version <- versions[i]}", "Dependency is assembled as %s" % {k: v[:120] for k, v in dep.items()}, gd.span)
     gsb = f.one("package::PackageMetadata::get_scriptlet")
     ag = agg_fields(gsb, "types::Scriptlet")
     if rep.anchor(ag is not None, "R5", "Scriptlet aggregate in get_scriptlet"):
         ft = ag[0]
         ok = ("get_entry_data_as_string(self.header, tags.0)" in ft.get("script", "") and "get_entry_data_as_u32(self.header, tags.1)" in ft.get("flags", "")
               and "get_entry_data_as_string_array(self.header, tags.2)" in ft.get("program", ""))
-        okp, left = peel_lossless(ft.get("flags", ""), r"rpm::headers::header::Header::<T>::get_entry_data_as_u32\(self\.header, tags\.1\)")
+        okp, left = peel_lossless(ft.get("flags", ""), r"rpm::headers::header::Header::<T>::get_entry_data_as_u32\(self\.header, tags\.1\)(<Ok>\.0)?")
         rep.check(okp, "R5", "get_scriptlet|flags-lossless", "scriptlet flags keep every stored bit", "scriptlet flags are computed as %s" % ft.get("flags", "")[:200], gsb.span)
         rep.check(ok, "R5", "get_scriptlet|fields", "Scriptlet{script <- tags.0 string, flags <- tags.1 u32, program <- tags.2 string array}",
                   "Scriptlet is assembled as %s" % {k: v[:90] for k, v in ft.items()}, gsb.span)
@@ -388,82 +408,72 @@ def run(f, fixture, rep, cfg, tier):
     gs = [(g[0], g[2]) for g in getters_in(gc)]
     rep.check(gs == [("string_array", "RPMTAG_CHANGELOGNAME"), ("u32_array", "RPMTAG_CHANGELOGTIME"), ("string_array", "RPMTAG_CHANGELOGTEXT")], "R5", "changelog|getters",
               "changelog reads NAME, TIME, TEXT", "get_changelog_entries reads %s" % gs, gc.span)
-    ce = None
-    for cb in f.closures_of(gc):
-        ag = agg_fields(cb, "header::ChangelogEntry")
-        if ag:
-            ce = ag[0]
-    rep.check(ce is not None and re.fullmatch(r"_\d+\.0", ce.get("name", "")) and re.fullmatch(r"u64\(_\d+\.1\)", ce.get("timestamp", "")) and re.fullmatch(r"_\d+\.2", ce.get("description", "")),
-              "R5", "changelog|fields", "ChangelogEntry{name <- .0, timestamp <- .1, description <- .2}", "ChangelogEntry is assembled as %s" % ce, gc.span)
-    tgc = TermBuilder(gc)
-    mz = [c for c in gc.calls() if c.decl.endswith("multizip")]
-    zt = render(tgc.term(mz[0].args[0])) if mz else ""
-    rep.check(bool(re.match(r"^tuple\{.*CHANGELOGNAME\{\}\)<Ok>\.0, .*CHANGELOGTIME\{\}\)<Ok>\.0, .*CHANGELOGTEXT\{\}\)<Ok>\.0\}$", zt)), "R5", "changelog|zip-order",
-              "zipped as (names, times, texts)", "multizip input is %s" % zt[:200], gc.span)
+    ce = record_fields(gc, "header::ChangelogEntry") or {}
+    okp, ts_inner = peel_lossless(ce.get("timestamp", ""), r"ELEM\(.*\)")
+    rep.check(elem_of(ce.get("name", "")) == ("string_array", "header", "RPMTAG_CHANGELOGNAME") and okp and elem_of(ts_inner) == ("u32_array", "header", "RPMTAG_CHANGELOGTIME")
+              and elem_of(ce.get("description", "")) == ("string_array", "header", "RPMTAG_CHANGELOGTEXT"),
+              "R5", "changelog|fields", "ChangelogEntry{name <- names[i], timestamp <- times[i], description <- texts[i]}", "ChangelogEntry is assembled as %s" % {k: v[:120] for k, v in ce.items()}, gc.span)
 
     # ---- R6 file paths and entries ----------------------------------------------------------------------------------------
     gp = f.one("package::PackageMetadata::get_file_paths")
     gs = [(g[0], g[2]) for g in getters_in(gp)]
     rep.check(gs == [("string_array", "RPMTAG_BASENAMES"), ("u32_array", "RPMTAG_DIRINDEXES"), ("string_array", "RPMTAG_DIRNAMES")], "R6", "file_paths|getters",
               "paths read BASENAMES, DIRINDEXES, DIRNAMES", "get_file_paths reads %s" % gs, gp.span)
-    tgp = TermBuilder(gp)
-    zp = [c for c in gp.calls() if c.decl == "std::iter::Iterator::zip"]
-    zt = [render(tgp.term(a)) for a in zp[0].args] if zp else []
-    rep.check(len(zt) == 2 and "RPMTAG_BASENAMES" in zt[0] and "RPMTAG_DIRINDEXES" in zt[1], "R6", "file_paths|zip", "basenames zipped with dir indexes", "zip inputs %s" % [z[:80] for z in zt], gp.span)
     okj = False
-    for cb in f.closures_of(gp):
-        tcb = TermBuilder(cb)
-        gets = [c for c in cb.calls() if re.search(r"<impl \[T\]>::get$", c.decl)]
-        joins = [c for c in cb.calls() if c.decl == "std::path::Path::join"]
-        errs = {st["rv"]["variant"] for bb in cb.reachable() for st in cb.stmts(bb) if st["k"] == "assign" and st["rv"]["r"] == "agg" and st["rv"].get("adt", "").endswith("errors::Error")}
-        if gets and joins:
-            g0 = render(tcb.term(gets[0].args[1]))
-            j0 = render(tcb.term(joins[0].args[0]))
-            j1 = render(tcb.term(joins[0].args[1]))
-            okj = bool(re.fullmatch(r"usize\(\w+\.1\)", g0)) and "<impl [T]>::get(" in j0 and re.fullmatch(r"\w+\.0", j1) is not None and errs == {"InvalidTagIndex"}
+    G = "rpm::headers::header::Header::<T>::get_entry_data_as_%s(self.header, constants::IndexTag::%s{})<Ok>.0"
+    want_dir = "std::path::Path::new(core::slice::<impl [T]>::get(%s, usize(ELEM(%s)))<Some>.0)" % (G % ("string_array", "RPMTAG_DIRNAMES"), G % ("u32_array", "RPMTAG_DIRINDEXES"))
+    want_base = "ELEM(%s)" % (G % ("string_array", "RPMTAG_BASENAMES"))
+    from common import constructed_errors
+    work, seenp = [gp], set()
+    joins_seen = []
+    while work:
+        cb = work.pop()
+        if cb.path in seenp:
+            continue
+        seenp.add(cb.path)
+        work += f.closures_of(cb)
+        tcb = TermBuilder(cb, closure_env=True)
+        for c in cb.calls():
+            if c.decl == "std::path::Path::join":
+                a0, a1 = render(normalize(f, tcb.term(c.args[0]))), render(normalize(f, tcb.term(c.args[1])))
+                joins_seen.append((a0[:120], a1[:120]))
+                if a0 == want_dir and a1 == want_base:
+                    okj = True
+    okj = okj and "InvalidTagIndex" in constructed_errors(f, gp)
     rep.check(okj, "R6", "file_paths|join", "path = dirs.get(dirindex) joined with the basename of the same position; bad index -> InvalidTagIndex",
               "get_file_paths no longer joins dirs.get(dir_index) with the basename (or a bad index is not an InvalidTagIndex error)", gp.span)
     ge = f.one("package::PackageMetadata::get_file_entries")
     tge = TermBuilder(ge)
-    mz = [c for c in ge.calls() if c.decl.endswith("multizip")]
-    ztuple = tge.term(mz[0].args[0]) if mz else ("unknown",)
-    positions = []
-    if ztuple[0] == "agg":
-        for x in ztuple[2]:
-            r = render(x)
-            m = re.search(r"RPM(?:SIG)?TAG_\w+", r)
-            positions.append("paths" if "get_file_paths(self)" in r else (m.group(0) if m else r[:40]))
-    want_pos = ["paths", "RPMTAG_FILEUSERNAME", "RPMTAG_FILEGROUPNAME", "RPMTAG_FILEMODES", "RPMTAG_FILEDIGESTS", "RPMTAG_FILEMTIMES", None, "RPMTAG_FILEFLAGS", "RPMTAG_FILELINKTOS"]
-    ok = len(positions) == 9 and all(w is None or p == w for p, w in zip(positions, want_pos))
-    rep.check(ok, "R6", "file_entries|zip-order", "file attribute arrays are zipped in the order %s" % [w or "sizes" for w in want_pos],
-              "multizip positions are %s" % positions, ge.span)
     gs = sorted({(g[0], g[2]) for g in getters_in(ge)} | {(g[0], g[2]) for cb in f.closures_of(ge) for g in getters_in(cb)})
     for (ty, tag) in gs:
         rep.check(TAG_TYPE.get(tag) == ty, "R6", "file_entries|type|%s" % tag, "%s read as %s" % (tag, ty), "%s is read as %s, rpm's tag table says %s" % (tag, ty, TAG_TYPE.get(tag)), ge.span)
     need = {"RPMTAG_FILEMODES", "RPMTAG_FILEUSERNAME", "RPMTAG_FILEGROUPNAME", "RPMTAG_FILEDIGESTS", "RPMTAG_FILEMTIMES", "RPMTAG_LONGFILESIZES", "RPMTAG_FILESIZES",
             "RPMTAG_FILEFLAGS", "RPMTAG_FILECAPS", "RPMTAG_FILELINKTOS", "RPMSIGTAG_FILESIGNATURES"}
     rep.check({t for (_y, t) in gs} >= need, "R6", "file_entries|tags", "all file attribute tags are read", "get_file_entries no longer reads %s" % sorted(need - {t for (_y, t) in gs}), ge.span)
-    fe_fields = None
-    own = None
-    for cb in f.closures_of(ge):
-        ag = agg_fields(cb, "header::FileEntry")
-        if ag:
-            fe_fields = ag[0]
-            ow = agg_fields(cb, "header::FileOwnership")
-            own = ow[0] if ow else None
-    if rep.anchor(fe_fields is not None and own is not None, "R6", "FileEntry aggregate in get_file_entries' closure"):
-        def pos(t):
-            m = re.search(r"_\d+\.1\.(\d+)", t or "")
-            return int(m.group(1)) if m else None
-        got = {"path": pos(fe_fields.get("path")), "user": pos(own.get("user")), "group": pos(own.get("group")), "mode": pos(fe_fields.get("mode")),
-               "digest": pos(fe_fields.get("digest")), "modified_at": pos(fe_fields.get("modified_at")), "size": pos(fe_fields.get("size")),
-               "flags": pos(fe_fields.get("flags")), "linkto": pos(fe_fields.get("linkto"))}
-        want = {"path": 0, "user": 1, "group": 2, "mode": 3, "digest": 4, "modified_at": 5, "size": 6, "flags": 7, "linkto": 8}
-        rep.check(got == want, "R6", "file_entries|fields", "FileEntry fields take the zip positions %s" % want, "FileEntry fields take positions %s (expected %s)" % (got, want), ge.span)
-        for fld, t in [(k, fe_fields.get(k, "")) for k in ("path", "mode", "modified_at", "size", "flags", "linkto")] + [("user", own.get("user", "")), ("group", own.get("group", ""))]:
-            okp, left = peel_lossless(t, r"_\d+\.1\.\d+")
+    fe_fields = record_fields(ge, "header::FileEntry")
+    own = record_fields(ge, "header::FileOwnership")
+    if rep.anchor(fe_fields is not None and own is not None, "R6", "FileEntry aggregate in get_file_entries"):
+        want_src = {"mode": ("u16_array", "header", "RPMTAG_FILEMODES"), "modified_at": ("u32_array", "header", "RPMTAG_FILEMTIMES"), "flags": ("u32_array", "header", "RPMTAG_FILEFLAGS"),
+                    "linkto": ("string_array", "header", "RPMTAG_FILELINKTOS"), "user": ("string_array", "header", "RPMTAG_FILEUSERNAME"), "group": ("string_array", "header", "RPMTAG_FILEGROUPNAME")}
+        allf = dict(fe_fields)
+        allf.update(own)
+        for fld, want in want_src.items():
+            t = allf.get(fld, "")
+            okp, inner = peel_lossless(t, r"ELEM\(.*\)")
             rep.check(okp, "R6", "file_entries|lossless|%s" % fld, "FileEntry.%s carries the stored value unchanged (only information-preserving conversions)" % fld,
-                      "FileEntry.%s is computed as %s: `%s` is not an information-preserving conversion of the stored value" % (fld, t[:160], left[:120]), ge.span)
-        for fld in ("caps", "ima_signature"):
-            t = fe_fields.get(fld, "")
-            rep.check(re.search(r"<impl \[T\]>::get\(.*, _\d+\.0\)", t) is not None, "R6", "file_entries|%s" % fld, "%s is taken at the file's own index" % fld, "%s is %s" % (fld, t[:160]), ge.span)
+                      "FileEntry.%s is computed as %s: `%s` is not an information-preserving conversion of the stored value" % (fld, t[:160], inner[:120]), ge.span)
+            rep.check(okp and elem_of(inner) == want, "R6", "file_entries|fields|%s" % fld, "FileEntry.%s <- %s[i]" % (fld, want[2]),
+                      "FileEntry.%s is taken from %s (expected the file's element of %s)" % (fld, inner[:160], want[2]), ge.span)
+        pth = allf.get("path", "")
+        rep.check(pth == "ELEM(rpm::package::PackageMetadata::get_file_paths(self)<Ok>.0)", "R6", "file_entries|fields|path", "FileEntry.path <- get_file_paths()[i]", "FileEntry.path is %s" % pth[:160], ge.span)
+        okp, inner = peel_lossless(allf.get("size", ""), r"ELEM\(.*\)")
+        rep.check(okp and "RPMTAG_LONGFILESIZES" in inner and inner.startswith("ELEM("), "R6", "file_entries|fields|size", "FileEntry.size <- (LONG)FILESIZES[i]", "FileEntry.size is %s" % allf.get("size", "")[:200], ge.span)
+        rep.check(okp, "R6", "file_entries|lossless|size", "FileEntry.size carries the stored value unchanged", "FileEntry.size is computed as %s" % allf.get("size", "")[:160], ge.span)
+        dg = allf.get("digest", "")
+        rep.check("FileDigest::new(" in dg and "ELEM(rpm::headers::header::Header::<T>::get_entry_data_as_string_array(self.header, constants::IndexTag::RPMTAG_FILEDIGESTS{})<Ok>.0)" in dg,
+                  "R6", "file_entries|fields|digest", "FileEntry.digest <- FILEDIGESTS[i]", "FileEntry.digest is %s" % dg[:200], ge.span)
+        for fld, tagname in (("caps", "RPMTAG_FILECAPS"), ("ima_signature", "RPMSIGTAG_FILESIGNATURES")):
+            t = allf.get(fld, "")
+            others = set(re.findall(r"RPM(?:SIG)?TAG_\w+", t)) - {tagname}
+            rep.check(tagname in t and "INDEX(" in t and "ELEM(" not in t.split("INDEX(")[0] and not (others - {"RPMTAG_BASENAMES", "RPMTAG_DIRINDEXES", "RPMTAG_DIRNAMES"} - set(re.findall(r"RPM(?:SIG)?TAG_\w+", t.split("INDEX(", 1)[1] if "INDEX(" in t else ""))),
+                      "R6", "file_entries|%s" % fld, "%s is the %s entry at the file's own index" % (fld, tagname), "%s is %s" % (fld, t[:200]), ge.span)
